@@ -129,4 +129,180 @@ def item_chunk_names(repo, out):
     out.append('Definition cs_bucket_to : Z := %s.' % coq_Z(ord(s.value.args[1].value)))
 
 
-ITEMS = [item_chunk_names]
+# ---------------------------------------------------------------------------------------------------
+# dask task (layer) names of put_dask_array / get_dask_array: WHICH attributes of a request the name contains
+
+def _fstring_names(node, what):
+    """Names interpolated by an f-string made only of literals and plain {name} fields."""
+    if not isinstance(node, ast.JoinedStr):
+        raise TranslateError('%s is not an f-string' % what)
+    names = []
+    for v in node.values:
+        if isinstance(v, ast.Constant) and isinstance(v.value, str):
+            continue
+        if (isinstance(v, ast.FormattedValue) and isinstance(v.value, ast.Name) and v.conversion == -1
+                and v.format_spec is None):
+            names.append(v.value.id)
+            continue
+        raise TranslateError('%s: unexpected f-string field %s' % (what, ast.dump(v)))
+    return names
+
+
+def _tokenize_args(fn, what):
+    """Arguments of the single top-level statement `token = da.core.tokenize(...)` of fn (None if there is none)."""
+    found = [(i, n) for i, n in enumerate(fn.body) if isinstance(n, ast.Assign) and len(n.targets) == 1
+             and isinstance(n.targets[0], ast.Name) and n.targets[0].id == 'token']
+    stores = [t for t in ast.walk(fn) if isinstance(t, ast.Name) and t.id == 'token' and isinstance(t.ctx, ast.Store)]
+    if len(stores) != len(found) or len(found) > 1:
+        raise TranslateError('%s: token is not assigned exactly once at the top level' % what)
+    if not found:
+        return None, None
+    i, n = found[0]
+    c = n.value
+    if not (isinstance(c, ast.Call) and ast.dump(c.func) == ast.dump(ast.parse('da.core.tokenize', mode='eval').body)
+            and not c.keywords):
+        raise TranslateError('%s: token is not da.core.tokenize(<positional arguments>)' % what)
+    return i, c.args
+
+
+def _fields(names, tok_args, table, what):
+    """Set of request attributes named by an f-string (through `token`, if interpolated)."""
+    out = set()
+    for nm in names:
+        if nm == 'token':
+            if tok_args is None:
+                raise TranslateError('%s: {token} used but never assigned' % what)
+            for a in tok_args:
+                src = ast.unparse(a)
+                if src not in table:
+                    raise TranslateError('%s: tokenize argument %r is not understood' % (what, src))
+                out.add(table[src])
+        elif nm in table:
+            out.add(table[nm])
+        else:
+            raise TranslateError('%s: interpolated name %r is not understood' % (what, nm))
+    return out
+
+
+def item_dask_names(repo, out):
+    rel = 'katdal/chunkstore.py'
+    tree = _parse(repo, rel)
+    cls = _class(tree, 'ChunkStore', rel)
+    # ---- put_dask_array: return da.map_blocks(_put_map_blocks, array, name=f'...', ..., store=self, array_name=..., offset=...)
+    fp = _func(cls, 'put_dask_array', rel)
+    if [a.arg for a in fp.args.args] != ['self', 'array_name', 'array', 'offset']:
+        raise TranslateError('put_dask_array: unexpected parameters')
+    body = [s for s in fp.body if not (isinstance(s, ast.Expr) and isinstance(s.value, ast.Constant))]
+    ti, targs = _tokenize_args(fp, 'put_dask_array')
+    rets = [n for n in body if isinstance(n, ast.Return)]
+    others = [n for n in body if not isinstance(n, ast.Return) and not (ti is not None and n is fp.body[ti])]
+    if len(rets) != 1 or body[-1] is not rets[0] or others:
+        raise TranslateError('put_dask_array: expected [token = ...;] return da.map_blocks(...)')
+    call = rets[0].value
+    if not (isinstance(call, ast.Call) and ast.unparse(call.func) == 'da.map_blocks'
+            and [ast.unparse(a) for a in call.args] == ['_put_map_blocks', 'array']):
+        raise TranslateError('put_dask_array: not da.map_blocks(_put_map_blocks, array, ...)')
+    kw = {k.arg: k.value for k in call.keywords}
+    for k, v in (('store', 'self'), ('array_name', 'array_name'), ('offset', 'offset')):
+        if k not in kw or ast.unparse(kw[k]) != v:
+            raise TranslateError('put_dask_array: keyword %s=%s not passed to _put_map_blocks' % (k, v))
+    if 'name' not in kw or 'token' in kw:
+        raise TranslateError('put_dask_array: map_blocks has no explicit name= (or has token=)')
+    ptable = {'id(self)': 'store', 'array_name': 'name', 'offset': 'offset', 'array.name': 'source', 'array': 'source',
+              'array.chunks': 'chunks', 'array.dtype': 'dtype'}
+    pf = _fields(_fstring_names(kw['name'], 'put_dask_array name='), targs, ptable, 'put_dask_array')
+    for k in ('store', 'name', 'offset', 'source', 'chunks', 'dtype'):
+        out.append('Definition cs_putname_%s : bool := %s.' % (k, 'true' if k in pf else 'false'))
+    # ---- get_dask_array: token = da.core.tokenize(...); out_name = f'...'; da.from_array(getter_shim, chunks, out_name, ...)
+    fg = _func(cls, 'get_dask_array', rel)
+    ti, targs = _tokenize_args(fg, 'get_dask_array')
+    prune = [i for i, n in enumerate(fg.body) if isinstance(n, ast.If) and ast.unparse(n.test) == 'index']
+    want = ast.dump(ast.parse('if index:\n    assert offset == ()\n    chunks, index, offset = _prune_chunks(chunks, index)').body[0])
+    if len(prune) != 1 or ast.dump(fg.body[prune[0]]) != want:
+        raise TranslateError('get_dask_array: the `if index:` pruning block has an unexpected shape')
+    names = [(i, n) for i, n in enumerate(fg.body) if isinstance(n, ast.Assign) and len(n.targets) == 1
+             and isinstance(n.targets[0], ast.Name) and n.targets[0].id == 'out_name']
+    if len(names) != 1 or ti is None or not (prune[0] < ti < names[0][0]):
+        raise TranslateError('get_dask_array: expected pruning, then token = ..., then out_name = ...')
+    for i, n in enumerate(fg.body[prune[0] + 1:names[0][0]]):
+        for t in ast.walk(n):
+            if isinstance(t, ast.Name) and isinstance(t.ctx, ast.Store) and t.id in ('chunks', 'index', 'offset', 'dtype', 'array_name'):
+                raise TranslateError('get_dask_array: %s reassigned between pruning and naming' % t.id)
+    fa = [n for n in ast.walk(fg) if isinstance(n, ast.Call) and ast.unparse(n.func) == 'da.from_array']
+    if len(fa) != 1 or [ast.unparse(a) for a in fa[0].args] != ['getter_shim', 'chunks', 'out_name']:
+        raise TranslateError('get_dask_array: not da.from_array(getter_shim, chunks, out_name, ...)')
+    gtable = {'self': 'store', 'id(self)': 'store', 'array_name': 'name', 'offset': 'offset', 'chunks': 'chunks',
+              'dtype': 'dtype', 'index': 'index'}
+    gf = _fields(_fstring_names(names[0][1].value, 'get_dask_array out_name'), targs, gtable, 'get_dask_array')
+    for k in ('store', 'name', 'offset', 'chunks', 'dtype', 'index'):
+        out.append('Definition cs_getname_%s : bool := %s.' % (k, 'true' if k in gf else 'false'))
+
+
+# ---------------------------------------------------------------------------------------------------
+# .npy object of a chunk: memory order the chunk is brought to, what is written as body, how it is read back
+
+def _has_node(tree, src):
+    want = ast.dump(ast.parse(src, mode='eval').body)
+    return any(ast.dump(n) == want for n in ast.walk(tree) if isinstance(n, ast.expr))
+
+
+def item_npy_body(repo, out):
+    rel = 'katdal/chunkstore.py'
+    tree = _parse(repo, rel)
+    fn = [n for n in tree.body if isinstance(n, ast.FunctionDef) and n.name == 'npy_header_and_body']
+    if len(fn) != 1:
+        raise TranslateError('npy_header_and_body not found')
+    body = [s for s in fn[0].body if not (isinstance(s, ast.Expr) and isinstance(s.value, ast.Constant))]
+    want = [None,
+            'fp = io.BytesIO()',
+            'header_fields = np.lib.format.header_data_from_array_1_0(chunk)',
+            'np.lib.format.write_array_header_1_0(fp, header_fields)',
+            'header = fp.getvalue()',
+            'return header, chunk']
+    if len(body) != len(want):
+        raise TranslateError('npy_header_and_body: unexpected number of statements (%d)' % len(body))
+    for s, w in zip(body, want):
+        if w is not None and ast.dump(s) != ast.dump(ast.parse(w).body[0]):
+            raise TranslateError('npy_header_and_body: statement differs from %r' % w)
+    first = ast.dump(body[0])
+    if first == ast.dump(ast.parse("chunk = np.asarray(chunk, order='C')").body[0]):
+        order_c = True
+    elif first == ast.dump(ast.parse("chunk = np.asarray(chunk)").body[0]):
+        order_c = False
+    else:
+        raise TranslateError("npy_header_and_body: first statement is not chunk = np.asarray(chunk[, order='C'])")
+    # the writers flatten the (C-ordered) chunk; the direct write and the MD5 take its buffer
+    reln = 'katdal/chunkstore_npy.py'
+    tn = _parse(repo, reln)
+    fw = [n for n in tn.body if isinstance(n, ast.FunctionDef) and n.name == '_write_chunk']
+    if len(fw) != 1:
+        raise TranslateError('_write_chunk not found')
+    if ast.dump(fw[0].body[0]) != ast.dump(ast.parse('header, chunk = npy_header_and_body(chunk)').body[0]):
+        raise TranslateError('_write_chunk does not start with header, chunk = npy_header_and_body(chunk)')
+    writes = sorted(ast.unparse(n) for n in ast.walk(fw[0]) if isinstance(n, ast.Call) and isinstance(n.func, ast.Attribute)
+                    and n.func.attr == 'write' and ast.unparse(n.func.value) in ('f', 'aligned'))
+    if writes != ['aligned.write(chunk)', 'aligned.write(header)', 'f.write(chunk.reshape(-1))', 'f.write(header)']:
+        raise TranslateError('_write_chunk: unexpected write calls %r' % (writes,))
+    rel3 = 'katdal/chunkstore_s3.py'
+    t3 = _parse(repo, rel3)
+    fput = _func(_class(t3, 'S3ChunkStore', rel3), 'put_chunk', rel3)
+    if not any(ast.dump(n) == ast.dump(ast.parse('npy_header, chunk = npy_header_and_body(chunk)').body[0]) for n in fput.body):
+        raise TranslateError('S3ChunkStore.put_chunk does not call npy_header_and_body(chunk)')
+    if not _has_node(fput, '_Multipart([npy_header, memoryview(chunk.reshape(-1))])'):
+        raise TranslateError('S3ChunkStore.put_chunk: body is not [npy_header, memoryview(chunk.reshape(-1))]')
+    # read_array: Fortran-ordered objects are reshaped to the reversed shape and transposed
+    fr = [n for n in t3.body if isinstance(n, ast.FunctionDef) and n.name == 'read_array']
+    if len(fr) != 1:
+        raise TranslateError('read_array not found')
+    want_if = ast.dump(ast.parse('if fortran_order:\n    data.shape = shape[::-1]\n    data = data.transpose()\n'
+                                 'else:\n    data.shape = shape').body[0])
+    ifs = [n for n in fr[0].body if isinstance(n, ast.If) and ast.unparse(n.test) == 'fortran_order']
+    if len(ifs) != 1 or ast.dump(ifs[0]) != want_if or not isinstance(fr[0].body[-1], ast.Return) \
+            or ast.unparse(fr[0].body[-1]) != 'return data' or fr[0].body[-2] is not ifs[0]:
+        raise TranslateError('read_array: the fortran_order branch has an unexpected shape')
+    if not _has_node(fr[0], 'np.ndarray(count, dtype=dtype)') or not _has_node(fr[0], 'fp.readinto(data.view(np.uint8))'):
+        raise TranslateError('read_array: the flat read of the body has an unexpected shape')
+    out.append('Definition cs_npy_order_c : bool := %s.' % ('true' if order_c else 'false'))
+
+
+ITEMS = [item_chunk_names, item_dask_names, item_npy_body]
